@@ -101,10 +101,17 @@ func (st LString) Type() LValueType { return LTString }
 func (st LString) Format(f fmt.State, c rune) {
 	switch c {
 	case 'd', 'i':
-		if nm, err := parseNumber(string(st)); err != nil {
-			defaultFormat(nm, f, 'd')
+		if nm, err := parseNumber(string(st)); err == nil {
+			nm.Format(f, c)
 		} else {
 			defaultFormat(string(st), f, 's')
+		}
+	case 'c', 'o', 'x', 'X', 'e', 'E', 'f', 'g', 'G':
+		// conversions that take a number accept a string convertible to a number
+		if nm, err := parseNumber(string(st)); err == nil {
+			nm.Format(f, c)
+		} else {
+			defaultFormat(string(st), f, c)
 		}
 	default:
 		defaultFormat(string(st), f, c)
